@@ -193,12 +193,32 @@ def r8c(fb, rep):
         des = [c for c in b.calls() if c.res.endswith("serialization::DeSeed::<'gc>::deserialize")]
         for d in des:
             n += 1
-            dest = d.dest[0]
-            uses = [c for c in b.calls() if any((a[0] in ("c", "m") and a[1][0] in flow.derived_locals(b, dest)) for a in c.args)]
-            names = {c.res.rsplit("::", 1)[1] for c in uses}
-            if names & {"unwrap", "expect", "unwrap_unchecked"}:
+            # follow the result through combinators until it is branched on (`?`) or unwrapped
+            frontier = [d.dest[0]]
+            seen_l = set()
+            verdict = None
+            names = set()
+            while frontier and verdict is None:
+                l = frontier.pop()
+                if l in seen_l:
+                    continue
+                seen_l.add(l)
+                locs = flow.derived_locals(b, l)
+                for c in b.calls():
+                    if c is d:
+                        continue
+                    if any((a[0] in ("c", "m") and a[1][0] in locs) for a in c.args):
+                        nm = c.res.rsplit("::", 1)[1]
+                        names.add(nm)
+                        if nm in ("unwrap", "expect", "unwrap_unchecked", "unwrap_or_default"):
+                            verdict = "unwrap"
+                        elif nm == "branch":
+                            verdict = "propagated"
+                        elif c.dest is not None:
+                            frontier.append(c.dest[0])
+            if verdict == "unwrap":
                 rep.violation(R, "deser-unwrap|%s" % bid, "%s unwraps the deserialisation result" % bid, d.where())
-            elif "map_err" in names or "branch" in names:
+            elif verdict == "propagated":
                 rep.ok(R, "%s: DeSeed::deserialize(..).map_err(..)? " % bid)
             else:
                 rep.violation(R, "deser-result-shape|%s" % bid, "%s does not propagate the deserialisation error (%s)" % (bid, sorted(names)), d.where())
